@@ -165,6 +165,12 @@ fn run(eng: &Engine, a: &Args) {
             alias.push(Case { chain: chain.clone(), layout: l, second: Callback::Balances, default_coin: true });
         }
     }
+    // a key of more than a megabyte (the statement says any length), with blocks stored before and beyond that offset
+    let long_key: Vec<u8> = (0..1_052_675u32).map(|i| (i.wrapping_mul(2_654_435_761) >> 13) as u8 | 1).collect();
+    let mut lk = LayoutSpec::canonical();
+    lk.gaps = vec![layout::Gap::None, layout::Gap::Hole(1_300_000), layout::Gap::None];
+    lk.xor = Some(long_key);
+    alias.push(Case { chain: chain.clone(), layout: lk, second: Callback::UnspentCsvDump, default_coin: false });
     eng.enumerate("magic-alias-keys", alias, check);
     eng.explore("xor-vs-plaintext", scaled(n1, a), move || strategy(tier, false), check);
     eng.explore("xor-vs-plaintext-4GiB", scaled(n2, a), move || strategy(tier, true), check);
